@@ -115,8 +115,18 @@ pub fn gen_window(rng: &mut Rng, fw: u16, fh: u16, o: &CfgOpts, allow_full: bool
             _ => rng.below(max as u64 + 1) as u16,
         }
     };
-    let ox = off(rng, w, fw);
-    let oy = off(rng, h, fh);
+    let mut ox = off(rng, w, fw);
+    let mut oy = off(rng, h, fh);
+    // panels are often centred in the controller's memory (equal margins on both sides)
+    match rng.below(12) {
+        0 => {
+            ox = (fw - w) / 2;
+            oy = (fh - h) / 2;
+        }
+        1 => ox = (fw - w) / 2,
+        2 => oy = (fh - h) / 2,
+        _ => {}
+    }
     (w, h, ox, oy)
 }
 
@@ -182,6 +192,8 @@ pub fn gen_config(rng: &mut Rng, o: &CfgOpts) -> Config {
                 latch_partial: rng.coin(),
                 by_ref: !transport.pin_level() && rng.chance(1, 3),
                 builder_order: if rng.chance(1, 3) { rng.below(720) as u16 | ((rng.below(2) as u16) << 15) } else { 0 },
+                zst_rst: rng.chance(1, 3),
+                bus_from: rng.chance(1, 3),
             };
         }
     }
@@ -220,6 +232,8 @@ pub fn gen_config(rng: &mut Rng, o: &CfgOpts) -> Config {
             latch_partial: rng.coin(),
             by_ref: !transport.pin_level() && rng.chance(1, 3),
                 builder_order: if rng.chance(1, 3) { rng.below(720) as u16 | ((rng.below(2) as u16) << 15) } else { 0 },
+                zst_rst: rng.chance(1, 3),
+                bus_from: rng.chance(1, 3),
         };
     }
 }
